@@ -19,6 +19,7 @@ vmod!(wbench, "wbench.rs");
 vmod!(codec, "codec.rs");
 vmod!(disc, "disc.rs");
 vmod!(ddb, "ddb.rs");
+vmod!(schedsc, "schedsc.rs");
 vmod!(plcdr, "plcdr.rs");
 
 // drivers that need the DDS Security plugins (only in the `security` build: vcheck-sec)
